@@ -89,7 +89,7 @@ class RefCalc:
                     if x[0] == 'f' and x[1] not in ok_f:
                         return False
                     if x[0] == 'f' and x[1] in ('SUM', 'MAX', 'MIN', 'COUNT') \
-                            and any(a[0] not in ('r', 'nm', 'u', 'x')
+                            and any(a[0] not in ('r', 'nm', 'u', 'x', 'w')
                                     for a in x[2:]):
                         return False
                     if x[0] == 'op' and x[1] not in ('+', '-', '*', '>', '<',
@@ -134,6 +134,8 @@ class RefCalc:
     def ref_values(self, e):
         if e[0] == 'nm':
             e = self.world['names'][e[1]]['t']
+        if e[0] == 'w':       # whole rows / columns: blank outside the window
+            e = ['r'] + e[1:7]
         if e[0] == 'u':       # union: each area in turn (overlaps count twice)
             out = []
             for x in e[1:]:
@@ -201,7 +203,7 @@ class RefCalc:
         if fn in ('SUM', 'MAX', 'MIN', 'COUNT'):
             vals = []
             for a in args:
-                if a[0] in ('r', 'nm', 'u', 'x'):
+                if a[0] in ('r', 'nm', 'u', 'x', 'w'):
                     vals.extend(self.ref_values(a))
                 else:
                     raise NotImplementedError('aggregate over expression')
